@@ -55,8 +55,8 @@ Definition reldiff (A B : mat) : Q :=
   let m := maxabs A in if Qeq_bool m 0 then (if meq A B then 0 else 1) else maxabs (msub A B) / m.
 
 (* code of one step (0 = fine) and the updated running context *)
-Definition ds_step_code (b : Z) (shape : list nat) (tau meps : Q) (rel graft_none : bool) (st : dacc)
-           (r : dstep) : Z * dacc :=
+Definition ds_step_code (b : Z) (shape : list nat) (tau meps : Q) (rel graft_none strict : bool)
+           (st : dacc) (r : dstep) : Z * dacc :=
   let '(amp0, scales0, rels0, (c1, c2, c3)) := st in
   let blocks := ds_blocks b shape (d_g r) in
   let np := length shape in
@@ -67,11 +67,24 @@ Definition ds_step_code (b : Z) (shape : list nat) (tau meps : Q) (rel graft_non
                 && Nat.eqb (length (d_uB r)) nblk) then (8%Z, st)
   else
     let ks := seq 0 nblk in
-    if negb (forallb (fun k => all2 meq (blockview np k (d_statsA r)) (nth k (d_statsB r) [])) ks)
+    let slacks := map (fun '(A, lam) => root_slack meps rel A lam) (combine (d_statsA r) (d_lam r)) in
+    let stat_ok (x y : mat) := if meq x y then true else if strict then false else mrel tau y x in
+    if negb (forallb (fun k => all2 stat_ok (blockview np k (d_statsA r)) (nth k (d_statsB r) [])) ks)
     then (2%Z, st)
-    else if negb (forallb (fun k => all2 meq (blockview np k (d_preA r)) (nth k (d_preB r) [])) ks)
+    else
+    let preB_flat := concat (d_preB r) in
+    let rPreB := map (fun '(sl, (pa, pb)) =>
+                        let d := reldiff pa pb in
+                        (if meq pa pb then true else if strict then false
+                         else match sl with Some s0 => Qleb d (tau + s0) | None => true end, d))
+                     (combine slacks (combine (d_preA r) preB_flat)) in
+    if negb (Nat.eqb (length preB_flat) (length (d_preA r)) && forallb fst rPreB
+             && forallb (fun k => Nat.eqb (length (nth k (d_preB r) [])) np) ks)
     then (3%Z, st)
     else
+      let relsB := map (fun k => Qmax (nth k rels0 0)
+                                   (fold_left Qplus (map snd (blockview np k rPreB)) 0)) ks in
+      let relB := fun k => nth k relsB 0 in
       let pgs := map (fun '(k, blk) => t_data (precondition_block blk (blockview np k (d_preA r))))
                      (combine ks blocks) in
       let amp := fold_left Qmax
@@ -80,15 +93,14 @@ Definition ds_step_code (b : Z) (shape : list nat) (tau meps : Q) (rel graft_non
       let uAs := map (fun bx => slice_rec shape (fst bx) (snd bx) (d_uA r)) (ds_boxes b shape) in
       let uPs := map (fun bx => slice_rec shape (fst bx) (snd bx) (d_uP r)) (ds_boxes b shape) in
       let scales := map (fun '(k, ub) => Qmax (nth k scales0 0) (maxabs_vec ub)) (combine ks (d_uB r)) in
-      let tolk := fun k => tau * (4 + amp) * nth k scales 0 in
+      let tolk := fun k => (tau * (4 + amp) + 4 * amp * relB k) * nth k scales 0 in
       let rAB := map (fun '(k, (ua, ub)) =>
                         if graft_none then close_or_eq (tolk k) ua ub
-                        else (same_direction (tau * (4 + amp)) ua ub, veq ua ub))
+                        else (same_direction (tau * (4 + amp) + 4 * amp * relB k) ua ub, veq ua ub))
                      (combine ks (combine uAs (d_uB r))) in
       if negb (forallb fst rAB) then (4%Z, st)
       else if negb (all2 meq (d_statsA r) (d_statsP r)) then (5%Z, st)
       else
-        let slacks := map (fun '(A, lam) => root_slack meps rel A lam) (combine (d_statsA r) (d_lam r)) in
         let rPre := map (fun '(sl, (pa, pp)) =>
                            let d := reldiff pa pp in
                            (match sl with Some s0 => Qleb d (tau + s0) | None => true end, meq pa pp, d,
@@ -98,7 +110,7 @@ Definition ds_step_code (b : Z) (shape : list nat) (tau meps : Q) (rel graft_non
                  Nat.eqb (length (d_lam r)) (length (d_preA r)) &&
                  forallb (fun x => fst (fst (fst x))) rPre) then (6%Z, st)
         else
-          let rels := map (fun k => Qmax (nth k rels0 0)
+          let rels := map (fun k => Qmax (relB k)
                                       (fold_left Qplus (map (fun x => snd (fst x)) (blockview np k rPre)) 0)) ks in
           let tolP := fun k => (tau * (4 + amp) + 4 * amp * nth k rels 0) * nth k scales 0 in
           let rAP := map (fun '(k, (ua, up)) => close_or_eq (tolP k) up ua) (combine ks (combine uAs uPs)) in
@@ -108,21 +120,21 @@ Definition ds_step_code (b : Z) (shape : list nat) (tau meps : Q) (rel graft_non
                        (c2 + nb (forallb (fun x => snd (fst (fst x))) rPre))%Z,
                        (c3 + nb (forallb snd rAP) + 1000000 * nb (forallb snd rPre))%Z))).
 
-Fixpoint ds_steps (b : Z) (shape : list nat) (tau meps : Q) (rel gn : bool) (i : Z) (st : dacc)
+Fixpoint ds_steps (b : Z) (shape : list nat) (tau meps : Q) (rel gn strict : bool) (i : Z) (st : dacc)
          (rs : list dstep) : Z * (Z * Z * Z) :=
   match rs with
   | [] => (0%Z, snd st)
   | r :: rest =>
-    let '(code, st') := ds_step_code b shape tau meps rel gn st r in
-    if (code =? 0)%Z then ds_steps b shape tau meps rel gn (i + 1) st' rest
+    let '(code, st') := ds_step_code b shape tau meps rel gn strict st r in
+    if (code =? 0)%Z then ds_steps b shape tau meps rel gn strict (i + 1) st' rest
     else ((100 * i + code)%Z, snd st)
   end.
 
 (* 100 * step + code; counters = steps whose (A vs B updates, A vs A+ preconditioners,
    A vs A+ updates) were accepted within tolerance but not bitwise *)
-Definition chk_ds (b : Z) (shape : list nat) (tau meps : Q) (rel graft_none : bool) (rs : list dstep)
-  : Z * (Z * Z * Z) :=
-  ds_steps b shape tau meps rel graft_none 0 (1, [], [], (0, 0, 0)%Z) rs.
+Definition chk_ds (b : Z) (shape : list nat) (tau meps : Q) (rel graft_none strict : bool)
+           (rs : list dstep) : Z * (Z * Z * Z) :=
+  ds_steps b shape tau meps rel graft_none strict 0 (1, [], [], (0, 0, 0)%Z) rs.
 
 (* ---------- Tearfree Shampoo ---------- *)
 Record tstep := mkt {
